@@ -1,7 +1,7 @@
 (* Extraction of the executable models (ExtrOcamlBasic only; Z/positive/Q stay Coq datatypes). *)
 From Coq Require Import List Arith ZArith QArith Qcanon.
 From Coq Require Import extraction.ExtrOcamlBasic.
-Require Import PGM.Base.Alg PGM.Base.Sums PGM.Base.Qnn PGM.Model.Domain PGM.Model.Dataset PGM.Model.Factor PGM.Model.XQ PGM.Model.BP PGM.Model.JTree PGM.Model.Query PGM.Model.Loss.
+Require Import PGM.Base.Alg PGM.Base.Sums PGM.Base.Qnn PGM.Model.Domain PGM.Model.Dataset PGM.Model.Factor PGM.Model.XQ PGM.Model.BP PGM.Model.JTree PGM.Model.Query PGM.Model.Loss PGM.Model.Synth.
 Extraction Language OCaml.
 Extraction "model.ml"
   QcSR QnnSF Qc_of Qnn_of Qc_num Qc_den qv
@@ -14,4 +14,5 @@ Extraction "model.ml"
   BP.marginal_table BP.jt_okb BP.structb BP.vschedb BP.completeb BP.rootokb BP.brute BP.root_tree
   JTree.jt_cliques JTree.greedy_order JTree.coverb JTree.attrs_coverb JTree.antichainb JTree.eliminate
   Query.ve Query.project_ve Query.project_cached Query.table_of Query.krondot Query.qfactor Query.pots
-  Loss.total_loss Loss.group_of Loss.lip_group_of Loss.ivw Loss.est_of Loss.var_of Loss.loss_m Loss.grad_m Loss.tmatvec.
+  Loss.total_loss Loss.group_of Loss.lip_group_of Loss.ivw Loss.est_of Loss.var_of Loss.loss_m Loss.grad_m Loss.tmatvec
+  Synth.round_col Synth.valid_idx Synth.scaled.
